@@ -134,6 +134,13 @@ class P:
                     return ["^", args[0], args[1]]
                 if v == "fmod" and len(args) == 2:
                     return ["mod", args[0], args[1]]
+                if v in ("expm1", "log1p", "exp2", "log2", "log10", "cbrt") and len(args) == 1:
+                    # C99 functions an "optimising" printer may substitute (meaning over the reals; the typed evaluator is not bit-exact for them)
+                    one, two, ten, three = (["n", str(k), "1", 0] for k in (1, 2, 10, 3))
+                    a0 = args[0]
+                    return {"expm1": ["-", ["fn", "exp", a0], one], "log1p": ["fn", "log", ["+", one, a0]],
+                            "exp2": ["^", two, a0], "log2": ["/", ["fn", "log", a0], ["fn", "log", two]],
+                            "log10": ["/", ["fn", "log", a0], ["fn", "log", ten]], "cbrt": ["^", a0, ["/", one, three]]}[v]
                 if v in ("fmax", "fmin") and len(args) == 2:
                     # C99 fmax / fmin on non-NaN operands
                     return ["if", ["rel", "gt" if v == "fmax" else "lt", args[0], args[1]], args[0], args[1]]
